@@ -79,31 +79,27 @@ func main() { vlib.Run("C20", run) }
 
 func run(c *vlib.Ctx) {
 	c.Rule("one case = one concurrent run of 2-4 workers x 20-80 ops (thorough: up to 200) on 1-2 shared files in /a,/b of one MFS root " +
-		"(config: chunker default|size-16, CIDv0|v1, fixed-length overwrite|truncate+write, yield injection rate in the DAG service); " +
-		"strata: rw (every write truncates first; no file attr calls, no cache-dropping flush), faults (rw without Mv/Mkdir, DAGService.Add failing for 1-4 of 64 calls: a failed write may or may not have happened, or have only truncated), overwrite (rw with fixed-length in-place overwrites, i.e. DagModifier.modifyDag), setattr (rw + File.SetMode/SetModTime), dirflush (rw + Directory.Flush/FlushPath(dir)), " +
-		"dirattr (rw + Directory.SetMode/SetModTime), modeq (rw + File.Mode/ModTime; runs last because the known re-entrant RLock deadlock aborts the batch); " +
+		"(config: chunker default|size-16, CIDv0|v1, fixed|variable payload length, yield injection rate in the DAG service); " +
+		"strata: rw (every write truncates first), modeq (3-4 workers on one file, half of the ops File.Mode/ModTime), setattr (rw + File.SetMode/SetModTime), " +
+		"overwrite (rw with fixed-length in-place overwrites, i.e. DagModifier.modifyDag), faults (rw without Mv/Mkdir, DAGService.Add failing for 1-4 of 64 calls: a failed write may or may not have happened, or have only truncated), " +
+		"dirflush (rw + Directory.Flush/FlushPath(dir): known cache-orphaning defect), dirattr (rw + Directory.SetMode/SetModTime by one worker: known stale-snapshot defect); " +
 		"distinct = FNV of the observed per-key history shape (op kinds with call/return order); " +
 		"non-trivial = measured: max concurrency >= 2, some write overlapped another op on the same key, and a read returned a value written by a different worker during the run")
 	c.Cases("rw", c.N(32, 300), func(k *vlib.Case) { oneRun(k, "rw") })
-	c.Cases("faults", c.N(12, 100), func(k *vlib.Case) { oneRun(k, "faults") })
-	c.Cases("overwrite", c.N(12, 80), func(k *vlib.Case) { oneRun(k, "overwrite") })
+	c.Cases("modeq", c.N(16, 80), func(k *vlib.Case) { oneRun(k, "modeq") })
 	c.Cases("setattr", c.N(12, 100), func(k *vlib.Case) { oneRun(k, "setattr") })
+	c.Cases("overwrite", c.N(12, 80), func(k *vlib.Case) { oneRun(k, "overwrite") })
+	c.Cases("faults", c.N(12, 100), func(k *vlib.Case) { oneRun(k, "faults") })
+	// the two strata with known (unfixed) defects
 	c.Cases("dirflush", c.N(12, 80), func(k *vlib.Case) { oneRun(k, "dirflush") })
 	c.Cases("dirattr", c.N(12, 80), func(k *vlib.Case) { oneRun(k, "dirattr") })
-	// last: a deadlock stops the batch
-	c.Cases("modeq", c.N(16, 80), func(k *vlib.Case) { oneRun(k, "modeq") })
 }
 
 // ---------------------------------------------------------------- history
 
 type in struct {
-	Key string
-	// 'w' write, 'r' read of the content, 's' size. Operations that MFS
-	// implements as "read fi.node ... store a node derived from it" are recorded
-	// as two halves with the same interval: 'a' (snapshot) or 'R' (snapshot that
-	// is also returned to the client: descriptor read, FlushPath(file)) and 'b'
-	// (store back). The strict model treats 'R' as 'r' and ignores 'a'/'b'.
-	Kind   byte
+	Key    string
+	Kind   byte // 'w' write, 'r' read of the content, 's' size
 	Val    string
 	Client int
 	What   string // client-level operation name, for the witness
@@ -248,7 +244,9 @@ type world struct {
 	tokBroken []bool       // per worker: a token anomaly was reported, its location is no longer known
 	oplog     [][]opSpan   // per worker: interval of every executed operation (read after the workers finished)
 
-	failMu sync.Mutex
+	done     bool // all workers returned: per-worker logs may be read
+	failMu   sync.Mutex
+	deferred []pending
 }
 
 type yieldDS struct {
@@ -304,29 +302,41 @@ type opSpan struct {
 	call, ret int64
 }
 
-// propagates: the operation pushes a new node up the directory chain to the
-// root (Directory.updateChildEntry ... Root.updateChildEntry -> Republisher).
+// propagates: the operation hands a root CID to the republisher, either at the
+// end of a chain child -> Directory.updateChildEntry -> ... ->
+// Root.updateChildEntry, or directly (Root.Flush = GetNode, then Update).
 func (o op) propagates() bool {
 	switch o.kind {
 	case opWrite:
 		return o.sync || o.fdflush
-	case opFlushPathFile, opFileFlush, opTokMv, opMkdir, opSetMode, opSetMtime, opDirSetMode, opDirSetMtime, opDirFlush:
+	case opTokMv, opMkdir:
+		return o.n%2 == 0 // token written through a Sync descriptor / Mkdir with Flush
+	case opSnap, opFlushPathFile, opFileFlush, opSetMode, opSetMtime, opDirSetMode, opDirSetMtime, opDirFlush:
 		return true
 	}
 	return false
 }
 
-// otherPropagation reports whether an operation on another path that
-// propagates to the root overlapped [from,to].
-func (w *world) otherPropagation(key string, from, to int64) bool {
+// otherPropagation returns an operation that hands a root to the republisher
+// independently of the file's descriptor lock and overlaps [from,to]
+// (directory setattrs first).
+func (w *world) otherPropagation(key string, from, to int64) (opSpan, bool) {
+	var found opSpan
+	ok := false
 	for _, l := range w.oplog {
 		for _, s := range l {
-			if s.o.propagates() && s.o.path != key && s.call < to && from < s.ret {
-				return true
+			// descriptor operations on the same file are serialised by its
+			// descriptor lock including their propagation; File.SetMode/
+			// SetModTime propagate after releasing nodeLock and are not
+			sameFileSerialised := s.o.path == key && s.o.kind != opSetMode && s.o.kind != opSetMtime
+			if s.o.propagates() && !sameFileSerialised && s.call < to && from < s.ret {
+				if !ok || s.o.kind == opDirSetMode || s.o.kind == opDirSetMtime {
+					found, ok = s, true
+				}
 			}
 		}
 	}
-	return false
+	return found, ok
 }
 
 func (w *world) auxBegin() *auxOp {
@@ -392,11 +402,6 @@ func oneRun(k *vlib.Case, stratum string) {
 	if inPlace {
 		fixedLen = true
 	}
-	if stratum == "setattr" {
-		// single inline node only: with links the known read-modify-write of
-		// SetMode mixes old metadata with new links, which no register model explains
-		smallChunks = false
-	}
 	var opts []mfs.Option
 	if smallChunks {
 		opts = append(opts, mfs.WithChunker(chunker.SizeSplitterGen(16)))
@@ -412,8 +417,8 @@ func oneRun(k *vlib.Case, stratum string) {
 		w.faultRate = uint64(vlib.Pick(r, []int{1, 2, 4}))
 	}
 	if stratum == "modeq" {
-		// the window of the known re-entrant RLock is a few instructions wide and
-		// has no collaborator call inside: maximise lock traffic on one file
+		// File.Mode/ModTime against flushUp/Open on one file: maximise the lock
+		// traffic on nodeLock (there is no collaborator call to yield in)
 		nworkers, nfiles, nops, w.yieldRate = r.Range(3, 4), 1, r.Range(80, c.N(160, 300)), 0
 	}
 	k.Logf("config stratum=%s workers=%d files=%d sameDir=%v ops/worker=%d chunker=%s cid=v%d fixedLen=%v inPlaceWrites=%v yieldRate=%d/16 GOMAXPROCS=%d",
@@ -492,7 +497,7 @@ func oneRun(k *vlib.Case, stratum string) {
 			var o op
 			special := 13
 			if stratum == "modeq" {
-				special = 50 // the re-entrant RLock window is a few instructions wide: query often
+				special = 50 // query often
 			}
 			switch {
 			case x < special:
@@ -683,12 +688,49 @@ func (w *world) opErr(step string, o op, err error) {
 	if errors.Is(err, os.ErrNotExist) {
 		cl += "-notexist"
 	}
-	if o.kind == opTokMv {
-		cl += w.tokTrigger(o.wi)
-	} else {
-		cl += w.knownTrigger(0, 0)
+	// under the measured trigger of a known defect the class is the family's
+	// (closed set of names); which call failed stays in the witness
+	w.failLater(pending{base: cl, family: "op-error", tok: o.kind == opTokMv, wi: o.wi,
+		clause: "operation on a healthy in-memory store succeeds", exp: "nil error", obs: fmt.Sprintf("%s: %v", o, err)})
+}
+
+// pending is an anomaly outside the register histories (tokens, mkdir,
+// unexpected errors). It is classified when the run is over, with the same
+// end-of-run trigger measurements as the register histories: under the
+// measured trigger of a known defect its class is <family>/<trigger> (a closed
+// set of names; which call failed stays in the witness), otherwise base[/when].
+type pending struct {
+	base, family, when string
+	tok                bool
+	wi                 int
+	clause, exp, obs   string
+}
+
+func (w *world) failLater(p pending) {
+	w.failMu.Lock()
+	w.deferred = append(w.deferred, p)
+	w.failMu.Unlock()
+}
+
+func (w *world) flushPending() {
+	w.failMu.Lock()
+	ps := w.deferred
+	w.deferred = nil
+	w.failMu.Unlock()
+	for _, p := range ps {
+		trig := w.knownTrigger(0, 0)
+		if p.tok {
+			trig = w.tokTrigger(p.wi)
+		}
+		class := p.base
+		switch {
+		case trig != "":
+			class = p.family + trig
+		case p.when != "":
+			class += "/" + p.when
+		}
+		w.fail(class, p.clause, p.exp, p.obs)
 	}
-	w.fail(cl, "operation on a healthy in-memory store succeeds", "nil error", fmt.Sprintf("%s: %v", o, err))
 }
 
 func (w *world) file(o op, step string) *mfs.File {
@@ -787,22 +829,18 @@ func (w *world) exec(wi int, o op) {
 		}
 		w.noteOrphan(o.path, f)
 	case opRead:
-		id := w.rec.call(in{Key: o.path, Kind: 'R', Client: wi, What: "Open(R)+ReadAll"})
-		idb := w.rec.call(in{Key: o.path, Kind: 'b', Client: wi, What: "Open(R)+ReadAll"})
+		id := w.rec.call(in{Key: o.path, Kind: 'r', Client: wi, What: "Open(R)+ReadAll"})
 		f := w.file(o, "")
 		if f == nil {
-			w.rec.ret(idb, out{})
 			return
 		}
 		fd, err := f.Open(ctx, mfs.Flags{Read: true})
 		if err != nil {
-			w.rec.ret(idb, out{})
 			w.opErr("open", o, err)
 			return
 		}
 		b, err := io.ReadAll(fd)
 		cerr := fd.Close()
-		w.rec.ret(idb, out{})
 		defer w.noteOrphan(o.path, f)
 		if err != nil {
 			w.opErr("read", o, err)
@@ -849,13 +887,11 @@ func (w *world) exec(wi int, o op) {
 			w.rec.retAt(ids[i], t, out{Val: v})
 		}
 	case opFlushPathFile:
-		id := w.rec.call(in{Key: o.path, Kind: 'R', Client: wi, What: whatFlushPathFile})
-		idb := w.rec.call(in{Key: o.path, Kind: 'b', Client: wi, What: "FlushPath(file)"})
+		id := w.rec.call(in{Key: o.path, Kind: 'r', Client: wi, What: whatFlushPathFile})
 		idp := w.rec.call(in{Key: o.path, Kind: 'r', Client: wi, What: whatPublishedRoot})
 		nd, err := mfs.FlushPath(ctx, w.root, o.path)
 		pub, _ := w.lastPub.Load().(cid.Cid)
 		t := w.rec.now()
-		w.rec.retAt(idb, t, out{})
 		if err != nil {
 			w.opErr("flushpath", o, err)
 			return
@@ -883,12 +919,7 @@ func (w *world) exec(wi int, o op) {
 		if f == nil {
 			return
 		}
-		ida := w.rec.call(in{Key: o.path, Kind: 'a', Client: wi, What: "File.Flush"})
-		idb := w.rec.call(in{Key: o.path, Kind: 'b', Client: wi, What: "File.Flush"})
-		err := f.Flush()
-		w.rec.ret(ida, out{})
-		w.rec.ret(idb, out{})
-		if err != nil {
+		if err := f.Flush(); err != nil {
 			w.opErr("flush", o, err)
 		}
 	case opList:
@@ -935,14 +966,10 @@ func (w *world) exec(wi int, o op) {
 			return
 		}
 		if _, err := mfs.Lookup(w.root, p); err != nil {
-			w.fail("mkdir-lost"+w.knownTrigger(0, 0), "a directory created by Mkdir can be looked up", p, err.Error())
+			w.failLater(pending{base: "mkdir-lost", family: "mkdir-lost", wi: wi, clause: "a directory created by Mkdir can be looked up", exp: p, obs: err.Error()})
 		}
 	case opSetMode, opSetMtime:
-		// recorded as the two halves of a read-modify-write so that the
-		// classification model can tell whether a register anomaly is explained
-		// by it; the strict model ignores both halves.
-		ida := w.rec.call(in{Key: o.path, Kind: 'a', Client: wi, What: kindName[o.kind]})
-		idb := w.rec.call(in{Key: o.path, Kind: 'B', Client: wi, What: kindName[o.kind]})
+		// changes metadata only: the content register must not notice
 		var err error
 		if f := w.file(o, ""); f != nil { // what mfs.Chmod / mfs.Touch do
 			if o.kind == opSetMode {
@@ -951,8 +978,6 @@ func (w *world) exec(wi int, o op) {
 				err = f.SetModTime(time.Unix(1_000_000_000+int64(o.n), 0))
 			}
 		}
-		w.rec.ret(ida, out{})
-		w.rec.ret(idb, out{})
 		if err != nil {
 			w.opErr("set", o, err)
 		}
@@ -1014,7 +1039,7 @@ func (w *world) tokenStep(wi int, o op) {
 	n, err := mfs.Lookup(w.root, src)
 	if err != nil {
 		w.tokBroken[wi] = true
-		w.fail("token-lost"+w.tokClass(wi, "before-write"), "private file stays where its owner moved it", src, err.Error())
+		w.failLater(pending{base: "token-lost", family: "token-lost", when: "before-write", tok: true, wi: wi, clause: "private file stays where its owner moved it", exp: src, obs: err.Error()})
 		return
 	}
 	w.tokStart[wi], w.tokEnd[wi] = w.rec.now(), 1<<62
@@ -1059,7 +1084,7 @@ func (w *world) tokenStep(wi int, o op) {
 // defect, or "" when none was observed (the anomaly is then a plain violation).
 func (w *world) knownTrigger(from, to int64) string {
 	switch {
-	case w.stratum == "dirflush" && (w.orphans.Load() > 0 || w.auxOverlaps(from, to)):
+	case w.stratum == "dirflush" && w.orphaningObserved():
 		return "/dirflush-orphaned-inode"
 	case w.stratum == "dirattr" && w.auxOverlaps(from, to):
 		return "/dir-setattr-overlap"
@@ -1067,11 +1092,26 @@ func (w *world) knownTrigger(from, to int64) string {
 	return ""
 }
 
-func (w *world) tokClass(wi int, when string) string {
-	if t := w.tokTrigger(wi); t != "" {
-		return t
+// orphaningObserved is the measured trigger of the cache-orphaning defect: an
+// operation finished on an inode object that Lookup no longer returns, or
+// (history based, covers every kind of operation) some operation other than
+// the Directory.Flush itself was in flight while a Directory.Flush ran.
+// Without such an overlap no inode reference can have been orphaned.
+func (w *world) orphaningObserved() bool {
+	if w.orphans.Load() > 0 {
+		return true
 	}
-	return "/" + when
+	if !w.done {
+		return false
+	}
+	for _, l := range w.oplog {
+		for _, s := range l {
+			if s.o.kind != opDirFlush && w.auxOverlaps(s.call, s.ret) {
+				return true
+			}
+		}
+	}
+	return false
 }
 
 // tokTrigger: a Directory.SetMode/SetModTime that overlaps one Mv leaves the
@@ -1098,13 +1138,13 @@ func (w *world) checkToken(wi int, read func(string) (string, error), when strin
 	v, err := read(at)
 	if err != nil {
 		w.tokBroken[wi] = true
-		w.fail("token-lost"+w.tokClass(wi, when), "moved private file is found at its destination", at, err.Error())
+		w.failLater(pending{base: "token-lost", family: "token-lost", when: when, tok: true, wi: wi, clause: "moved private file is found at its destination", exp: at, obs: err.Error()})
 	} else if v != w.tokVal(wi) {
-		w.fail("token-content"+w.tokClass(wi, when), "moved private file carries its last acknowledged write", w.tokVal(wi), v)
+		w.failLater(pending{base: "token-content", family: "token-content", when: when, tok: true, wi: wi, clause: "moved private file carries its last acknowledged write", exp: w.tokVal(wi), obs: v})
 	}
 	if _, err := read(old); err == nil {
 		w.tokBroken[wi] = true
-		w.fail("token-duplicate"+w.tokClass(wi, when), "moved private file is gone from its source", old+" absent", "still readable")
+		w.failLater(pending{base: "token-duplicate", family: "token-duplicate", when: when, tok: true, wi: wi, clause: "moved private file is gone from its source", exp: old + " absent", obs: "still readable"})
 	}
 }
 
@@ -1251,16 +1291,6 @@ func (w *world) waitWorkers(wg *sync.WaitGroup) bool {
 			g := g1[id]
 			chain := boxoChain(g.funcs)
 			desc = append(desc, fmt.Sprintf("goroutine %s [%s in both dumps, stack unchanged]: %s", id, g.state, chain))
-			for i, f := range g.funcs {
-				if f == "mfs.(*File).GetNode" && i+1 < len(g.funcs) {
-					switch g.funcs[i+1] {
-					case "mfs.(*File).Mode":
-						classes["deadlock/File.Mode-reentrant-RLock"] = true
-					case "mfs.(*File).ModTime":
-						classes["deadlock/File.ModTime-reentrant-RLock"] = true
-					}
-				}
-			}
 		}
 		if len(classes) == 0 {
 			var sig []string
@@ -1316,7 +1346,7 @@ func uniq(s []string) []string {
 
 // ---------------------------------------------------------------- offline checking
 
-// strict register: setattr halves do not touch the content.
+// the register: setting attributes does not touch the content.
 func strictModel(init string) porcupine.Model {
 	return porcupine.Model{
 		Init: func() any { return init },
@@ -1326,7 +1356,7 @@ func strictModel(init string) porcupine.Model {
 			switch i.Kind {
 			case 'w':
 				return true, i.Val
-			case 'r', 'R':
+			case 'r':
 				o, ok := output.(out)
 				return !ok || o.Val == s, s // open (unreturned) read: unconstrained
 			case 's':
@@ -1340,91 +1370,14 @@ func strictModel(init string) porcupine.Model {
 	}
 }
 
-// rmwModel is used only to classify a lost write in a history that contains
-// File.SetMode/SetModTime: like strictModel, but every MFS operation that reads
-// fi.node and later stores a node derived from it is a non-atomic
-// read-modify-write: half 'a'/'R' snapshots the content, half 'b' stores the
-// snapshot back (descriptor read at Close, File.Flush), half 'B' (setattr)
-// stores the snapshot's UnixFS data combined with the links of the then
-// current node, i.e. possibly garbage. A history that loses a write under
-// strictModel but is legal under rmwModel is explained by that known defect
-// and by nothing else.
-const garbled = "\x01garbled"
-
-func rmwModel(init string) porcupine.Model {
-	type st struct {
-		cur   string
-		snaps string // "client=value;" sorted by insertion, clients unique
-	}
-	get := func(s st, c int) (string, bool, string) {
-		pre := fmt.Sprintf("%d=", c)
-		rest := ""
-		val, found := "", false
-		for _, e := range strings.Split(s.snaps, "\x00") {
-			if e == "" {
-				continue
-			}
-			if strings.HasPrefix(e, pre) {
-				val, found = e[len(pre):], true
-				continue
-			}
-			rest += e + "\x00"
-		}
-		return val, found, rest
-	}
-	return porcupine.Model{
-		Init: func() any { return st{cur: init} },
-		Step: func(state, input, output any) (bool, any) {
-			s := state.(st)
-			i := input.(in)
-			switch i.Kind {
-			case 'w':
-				s.cur = i.Val
-				return true, s
-			case 'r':
-				o, ok := output.(out)
-				return !ok || s.cur == garbled || o.Val == s.cur, s
-			case 's':
-				o, ok := output.(out)
-				return !ok || s.cur == garbled || o.N == int64(len(s.cur)), s
-			case 'a', 'R':
-				if o, ok := output.(out); i.Kind == 'R' && ok && s.cur != garbled && o.Val != s.cur {
-					return false, s
-				}
-				_, found, rest := get(s, i.Client)
-				if found {
-					return false, s
-				}
-				s.snaps = rest + fmt.Sprintf("%d=%s\x00", i.Client, s.cur)
-				return true, s
-			case 'b', 'B':
-				v, found, rest := get(s, i.Client)
-				if !found {
-					return false, s
-				}
-				if i.Kind == 'B' && v != s.cur {
-					// setNodeData combines the snapshot's UnixFS data with the
-					// links of whatever node is current: the stored content is
-					// the snapshot's, the current one, or a mixture of both.
-					v = garbled
-				}
-				s.cur, s.snaps = v, rest
-				return true, s
-			}
-			return true, s
-		},
-		Equal: func(a, b any) bool { return a.(st) == b.(st) },
-	}
-}
-
 func describeOp(input, output any) string {
 	i := input.(in)
 	o, _ := output.(out)
 	switch i.Kind {
 	case 'w':
 		return fmt.Sprintf("c%d write %q", i.Client, short(i.Val))
-	case 'r', 'R':
-		return fmt.Sprintf("c%d read/%c[%s] -> %q", i.Client, i.Kind, i.What, short(o.Val))
+	case 'r':
+		return fmt.Sprintf("c%d read[%s] -> %q", i.Client, i.What, short(o.Val))
 	case 's':
 		return fmt.Sprintf("c%d size -> %d", i.Client, o.N)
 	}
@@ -1434,6 +1387,8 @@ func describeOp(input, output any) string {
 func (w *world) summarise(completed bool) {
 	k := w.k
 	c := k.C
+	w.done = completed
+	w.flushPending()
 	w.rec.mu.Lock()
 	all := append([]porcupine.Operation(nil), w.rec.ops...)
 	end := w.rec.clock.Load() + 1
@@ -1501,7 +1456,7 @@ func (w *world) summarise(completed bool) {
 				continue
 			}
 			for _, p := range ops {
-				if kd := p.Input.(in).Kind; p.Call != o.Call && p.Call < o.Return && o.Call < p.Return && kd != 'b' && kd != 'B' {
+				if p.Call != o.Call && p.Call < o.Return && o.Call < p.Return {
 					overlapWrite = true
 				}
 			}
@@ -1515,17 +1470,8 @@ func (w *world) summarise(completed bool) {
 	for _, key := range keys {
 		ops := byKey[key]
 		c.Count("porcupine_partitions", 1)
-		var strictOps []porcupine.Operation
-		hasAttr := false
-		for _, o := range ops {
-			if kd := o.Input.(in).Kind; kd == 'a' || kd == 'b' || kd == 'B' {
-				hasAttr = hasAttr || kd == 'B'
-				continue
-			}
-			strictOps = append(strictOps, o)
-		}
 		init := w.initVal[key]
-		switch vhist.Check(strictModel(init), strictOps, 30*time.Second) {
+		switch vhist.Check(strictModel(init), ops, 30*time.Second) {
 		case vhist.Ok:
 			continue
 		case vhist.Unknown:
@@ -1538,66 +1484,41 @@ func (w *world) summarise(completed bool) {
 		// were written): decide that clause separately, so that a mere new/old
 		// inversion between reads that overlap an unacknowledged write is not
 		// called a violation.
-		akind, anomaly, from, to := lostWrite(init, strictOps)
+		akind, anomaly, from, to := lostWrite(init, ops)
 		if anomaly == "" {
 			c.Count("nonlinearizable_but_no_lost_write", 1)
 			c.Count("nonlinearizable_but_no_lost_write_"+w.stratum, 1)
-			c.Note("nonlinearizable_example", fmt.Sprintf("%s %s: %s", k.ID, key, strings.Join(tailLines(historyLines(strictOps), 12), " ; ")))
+			c.Note("nonlinearizable_example", fmt.Sprintf("%s %s: %s", k.ID, key, strings.Join(tailLines(historyLines(ops, 0, 1<<62), 12), " ; ")))
 			continue
 		}
+		// [from,to] = from the invocation of the write that was lost to the
+		// return of the read that missed it. A known defect downgrades the
+		// finding only through its measured trigger:
 		class := "lost-write/" + w.stratum
 		note := ""
-		// [from,to] = from the invocation of the write that was lost to the
-		// return of the read that missed it
-		attrOverlap := false
-		for _, o := range ops {
-			if o.Input.(in).Kind == 'B' && o.Call < to && from < o.Return {
-				attrOverlap = true
-			}
-		}
-		rmwLegal := false
-		if hasAttr {
-			switch vhist.Check(rmwModel(init), ops, 30*time.Second) {
-			case vhist.Ok:
-				rmwLegal = true
-			case vhist.Unknown:
-				c.Inconclusive(1)
-				continue
-			}
-		}
 		switch {
-		case w.stratum == "dirflush" && w.orphans.Load() > 0:
+		case w.stratum == "dirflush" && w.orphaningObserved():
 			class = "lost-write/dirflush-orphaned-inode"
 			note = fmt.Sprintf(" (%d operations of this run finished on an inode object that Lookup no longer returns: Directory.Flush dropped the cache entry under them)", w.orphans.Load())
-		case rmwLegal:
-			class = "lost-write/file-setattr-rmw"
-			note = " (the history is legal once File.SetMode/SetModTime is modelled as the non-atomic read-modify-write of the file node that it is)"
 		case akind == "stale:"+whatPublishedRoot:
 			// the file's own node is current; the root handed to the publish
-			// function is not. Known triggers: a setattr that propagates its
-			// stale snapshot to the parent after the write did.
+			// function is not
 			class = "lost-write/published-root-stale/" + w.stratum
-			switch {
-			case attrOverlap:
-				class = "lost-write/published-root-stale/file-setattr-overlap"
-			case w.stratum == "dirattr" && w.auxOverlaps(from, to):
-				class = "lost-write/published-root-stale/dir-setattr-overlap"
-			case completed && w.otherPropagation(key, from, to):
-				// two chains Directory.localUpdate -> parent.localUpdate -> Root ->
-				// Republisher.Update are not atomic with respect to each other: the
-				// older snapshot can reach the parent (or the republisher) last
-				class = "lost-write/published-root-stale/concurrent-propagation"
-			}
 			note = " (the file's own node is current; the root handed to the publish function is not)"
-		case akind == "future:"+whatFlushPathFile || akind == "phantom:"+whatFlushPathFile:
-			// FlushPath(file) returns the File's live node object and the
-			// harness reads it after stamping the return: a value from the
-			// future (or a mixture) means the node object that MFS handed out
-			// was changed afterwards.
-			class = "retained-node-mutated/" + w.stratum
-			note = " (the node object returned by MFS was read after the call had returned; its content was changed by a write that started later)"
+			if sp, ok := w.otherPropagation(key, from, to); completed && ok {
+				// Chains Directory.localUpdate -> parent.localUpdate -> Root ->
+				// Republisher.Update (and Root.Flush: GetNode, then Update) lock one
+				// level at a time: the older snapshot can reach the parent or the
+				// republisher last. Directory.SetMode/SetModTime do the same with
+				// the stale snapshot they started from.
+				class = "lost-write/published-root-stale/concurrent-propagation"
+				if sp.o.kind == opDirSetMode || sp.o.kind == opDirSetMtime {
+					class = "lost-write/published-root-stale/dir-setattr-overlap"
+				}
+				note += fmt.Sprintf("; overlapping operation that hands a root to the republisher: w%d %s [%d,%d]", sp.o.wi, sp.o, sp.call, sp.ret)
+			}
 		}
-		for _, l := range historyLines(ops) {
+		for _, l := range historyLines(ops, from-80, to+20) {
 			k.Logf("HIST %s %s", key, l)
 		}
 		w.fail(class, "an acknowledged write is visible to every later read and in the flushed root (per-path register)",
@@ -1612,17 +1533,18 @@ func tailLines(l []string, n int) []string {
 	return l
 }
 
-func historyLines(ops []porcupine.Operation) []string {
+// historyLines renders the operations invoked in [from,to] (at most the last
+// 300 of them), ordered by invocation.
+func historyLines(ops []porcupine.Operation, from, to int64) []string {
 	s := append([]porcupine.Operation(nil), ops...)
 	sort.Slice(s, func(a, b int) bool { return s[a].Call < s[b].Call })
-	if len(s) > 260 {
-		s = s[len(s)-260:]
-	}
 	var out []string
 	for _, o := range s {
-		out = append(out, fmt.Sprintf("[%d,%d] %s", o.Call, o.Return, describeOp(o.Input, o.Output)))
+		if o.Return >= from && o.Call <= to {
+			out = append(out, fmt.Sprintf("[%d,%d] %s", o.Call, o.Return, describeOp(o.Input, o.Output)))
+		}
 	}
-	return out
+	return tailLines(out, 300)
 }
 
 // lostWrite decides the statement's clause on one register history: it returns
@@ -1653,7 +1575,7 @@ func lostWrite(init string, ops []porcupine.Operation) (kind, msg string, from, 
 	for _, r := range sorted {
 		i := r.Input.(in)
 		ov, ok := r.Output.(out)
-		if !ok || (i.Kind != 'r' && i.Kind != 'R' && i.Kind != 's') {
+		if !ok || (i.Kind != 'r' && i.Kind != 's') {
 			continue
 		}
 		// newest invocation among the writes acknowledged before the read began
